@@ -92,7 +92,10 @@ func (Logout) Run(c *orch.Case) *orch.Outcome {
 			id = "_lr-inner"
 		}
 		rootSpec = logoutSpec(in.Kind, id)
+		nearMu.Lock() // applyRootFaults draws from the shared near-miss source
+		nearRng = rand.New(rand.NewSource(c.Seed + 5))
 		applyRootFaults(rootSpec, pRoot{Version: in.Version, Dest: in.Dest, Issuer: in.Issuer, Status: in.Status})
+		nearMu.Unlock()
 		if in.Dest == "other" {
 			rootSpec.Destination = idp.S("https://evil.example/slo")
 		}
